@@ -566,6 +566,21 @@ func (g *wGen) malformed() []string {
 		}
 		return v
 	case 8: // unknown command
+		if g.rnd.Intn(2) == 0 && len(v[0]) > 1 {
+			// a name that is ALMOST the one the arguments belong to: a supported name with a suffix, or cut short
+			// (a dispatch that looks at a prefix, a bounded buffer or a hash of the name confuses them)
+			switch g.rnd.Intn(4) {
+			case 0:
+				v[0] = v[0] + g.pick([]string{"X", "2", ".v2", "_", " "})
+			case 1:
+				v[0] = v[0][:len(v[0])-1]
+			case 2:
+				v[0] = v[0] + v[0]
+			default:
+				v[0] = "X" + v[0]
+			}
+			return v
+		}
 		v[0] = g.pick(wUnknown)
 		return v
 	case 9: // negative numkeys (D11)
